@@ -222,7 +222,7 @@ let user_wins k c tag (d : string) =
     let num k' = match pget c k' with Some v -> Some (strtol_c v) | None -> None in
     (match num "flags" with Some v -> chk 0 "flags" (Printf.sprintf "%x" (v land 0xffffffff)) | None -> ());
     (match num "timeoutms" with Some v when v > 0 -> chk 13 "timeout" (string_of_int v) | _ -> ());
-    (match num "timeout" with Some v when v > 0 && pget c "timeoutms" = None -> chk 13 "timeout" (string_of_int (((v land 0xffffffff) * 1000) land 0xffffffff)) | _ -> ());
+    (match num "timeout" with Some v when v > 0 && pget c "timeoutms" = None -> chk 13 "timeout" (string_of_int (if v > 2147483 then 2147483647 else v * 1000)) | _ -> ());
     (match num "tries" with Some v when v > 0 -> chk 2 "tries" (string_of_int v) | _ -> ());
     (match num "ndots" with Some v when v >= 0 -> chk 3 "ndots" (string_of_int v) | _ -> ());
     (match num "maxtimeout" with Some v when v > 0 -> chk 20 "maxtimeout" (string_of_int v) | _ -> ());
@@ -533,15 +533,30 @@ let run_fn k c impl =
   | _ -> "trivial-badfn"
 
 let run_hosts k c impl =
-  (* no model: robustness (sanitizers, leak) and the metamorphic oracle only.  Junk for the hosts
-     file: blank lines, comments, lines whose first character cannot start an address *)
+  (* model: coq/Config/Hosts.v; junk lines judged by HostsSpec.junk_hosts_line *)
+  let names = match pget c "names" with None -> [] | Some v -> List.filter (fun x -> x <> "") (split_on ',' v) in
+  let file with_junk = match file_of c 'H' 'h' with_junk with Some f -> f | None -> "" in
+  let strl l = if l = [] then "-" else String.concat "," (List.map (fun b -> hexstr_opt (Some (str_of_bytes b))) l) in
+  List.iter (fun with_junk ->
+      let tag = if with_junk then "hosts-full" else "hosts-nojunk" in
+      match un (parse_hosts inet_fns (bytes_of_str (file with_junk))) with
+      | Stdlib.Ok hf ->
+        List.iteri (fun i nh ->
+            let name = unhex nh in
+            let m = match un (hosts_search_host hf (bytes_of_str name)) with
+              | Stdlib.Ok (Some e) -> Printf.sprintf "st=0 ips=%s hosts=%s" (strl e.he_ips) (strl e.he_hosts)
+              | Stdlib.Ok None -> "st=4"
+              | Stdlib.Error st -> Printf.sprintf "st=%d" st in
+            cmp k (Printf.sprintf "%s.%d" tag i) m impl) names
+      | Stdlib.Error _ -> ()) [true; false];
   let marked = List.filter (fun (t, _) -> t = 'h') c.units in
-  let is_junk d = let t = String.trim d in t = "" || t.[0] = '#' || not (hexval t.[0] >= 0 || t.[0] = ':') in
-  if marked <> [] && List.for_all (fun (_, d) -> not (String.contains d '\n') && is_junk d) marked then
-    (match impl_line impl k "hosts-full", impl_line impl k "hosts-nojunk" with
-     | Some x, Some y when x <> y -> pr "FAIL %d junk-dependent classes=hosts at=hosts %s != %s\n" k x y
-     | _ -> ());
-  if marked <> [] then "hosts-junk" else "hosts-plain"
+  if marked <> [] && List.for_all (fun (_, d) -> junk_hosts_line inet_fns (bytes_of_str d)) marked then begin
+    List.iteri (fun i _ ->
+        match impl_line impl k (Printf.sprintf "hosts-full.%d" i), impl_line impl k (Printf.sprintf "hosts-nojunk.%d" i) with
+        | Some x, Some y when x <> y -> pr "FAIL %d junk-dependent classes=hosts at=hosts.%d %s != %s\n" k i x y
+        | _ -> ()) names;
+    "hosts-junk"
+  end else if marked <> [] then "hosts-junk-unjudged" else "hosts-plain"
 
 let () =
   let cases = read_lines Sys.argv.(1) in
